@@ -114,6 +114,8 @@ def pool(tier):
         "y ~ (0 + center(x):f | h)",
         "y ~ f*g*scale(x)",
         "y ~ f:g:h",
+        "y ~ (0 + f | g + h) + (1 | h)", "y ~ (1 | g) + (0 + f | g + h)", "y ~ (f | g + h)", "y ~ (0 + f | g/h) + (1 | g)", "y ~ (0 + o | h + g) + (x | g)",
+        "y ~ f/g", "y ~ (f + g):h + f", "y ~ f/x + (f | g)", "y ~ (f + g)*scale(x)",
         "y ~ I(f)", "y ~ 0 + up(f)", "y ~ up(f):x", "y ~ x + (x | up(g))", "y ~ (0 + I(f) | g)",
     ]
     if tier == "thorough":
